@@ -42,6 +42,21 @@ CHECKS["C20"] = {
     "timeout_thorough": 3000,
 }
 
+CHECKS["C15"] = {
+    "replay_test": "TestC15Replay",
+    "runs": [{"test": "TestC15", "shards_quick": 12, "checks_quick": 700, "shards_thorough": 16, "checks_thorough": 40000}],
+    "fuzz": [{"target": "FuzzC15", "seconds": 120}],
+    "rule": "configurations valid by construction (depth<=3, sparse maxima, guarantees, max applications, user/group limits with wildcards, templates, placement rules) with 0-3 perturbations "
+            "around the documented rule boundaries (maximum above the parent's or above an ancestor's through a level that does not define the type, guaranteed above maximum or above the parent's, "
+            "max applications, limits above queue maximum / ancestor / wildcard, sibling names differing only in case, invalid names, placement rules with parents/filters/static paths, child "
+            "templates with odd quantities, units, limit order), rendered as YAML; every accepted document must satisfy an independent well-formedness predicate (own quantity parser), start a "
+            "new scheduler, load into a running one, and get the same verdict on repeated validation; non-trivial = accepted document of depth>=3 with >=2 sparse maxima, or with a rule chain; "
+            "distinct = hash of the YAML",
+    "assumptions": COMMON_ASSUMPTIONS + ["soundness only: rejecting a well formed document is not reported", "single partition documents"],
+    "timeout_quick": 600,
+    "timeout_thorough": 3000,
+}
+
 WORLD_ASSUMPTIONS = COMMON_ASSUMPTIONS + [
     "interleavings are explored at the granularity of one whole RM event handler / one scheduling cycle (finer interleavings belong to C14)",
     "timers are fired deterministically through hooks, only when the real timer is armed; ask age is 0 or 3600 s",
@@ -140,6 +155,12 @@ META = {
                       "no counterexample in N generated scripts, absence not established",
         "level_note": "trusts the reference models in props/c20_test.go, the verif constructor hooks in pkg/events and the Go toolchain; stream timing is only sampled",
         "technique": "model-based property testing (rapid) against a reference ring buffer; coverage-guided fuzzing of op scripts in the thorough tier",
+    },
+    "C15": {
+        "level_text": "generated-input search: near-valid configuration documents against an independent well-formedness predicate, load/reload of every accepted document into the real "
+                      "scheduler and repeated validation; coverage-guided fuzzing of raw YAML bytes in the thorough tier; no counterexample in N documents, absence not established",
+        "level_note": "trusts the independent predicate and quantity parser in props/, the harness world for load/reload, the Go toolchain; soundness of validation only",
+        "technique": "property-based testing (rapid) with a near-valid mutation generator and an independent validity predicate, plus native go fuzzing of YAML bytes",
     },
     "C01": _world_meta("a per-decision fit/schedulable/reservation/predicate oracle on the pre-step node view and node ledger equalities after every step"),
     "C02": _world_meta("a per-decision queue-maximum oracle along the queue path and the effective-limit ordering after every step"),
